@@ -5,6 +5,7 @@ From Coq Require Import List Ascii String Bool Arith ZArith QArith Lia.
 Import ListNotations.
 From TL Require Import Model.Str Model.Rpn Model.Table Model.Eval Model.Pipeline Model.History
   Proofs.Table_inv Proofs.Table_remove Proofs.Table_set Proofs.Table_history Proofs.Table_xhistory
+  Model.OpSem Proofs.OpSem_step
   Proofs.Rpn_parse Proofs.Eval_sem Proofs.Eval_machine Proofs.Eval_top Proofs.Eval_operate.
 
 (* after ANY history of create / remove / "#DELETE" / addListToAF / update / bracket assignment / single-observation assignment / function-computed feature
@@ -41,7 +42,20 @@ Theorem C01_expression_step e t d :
                xs t3 = xs t /\ ys t3 = ys t /\ zs t3 = zs t /\ ts t3 = ts t.
 Proof. exact (operate_abs e t d). Qed.
 
+(* operator application (an operator OBJECT: shifts, circular shifts, rectifier - Model/OpSem.v) to the column c read under a listed name, written under `out`
+   (in place when `out` is that name): one table step that keeps the invariant and the size, puts exactly the operator's output under `out` in the abstract map
+   and, unless `out` names a coordinate, leaves coordinates and timestamps alone *)
+Theorem C01_operator_step o t out c :
+  Inv t -> List.length c = Table.size t ->
+  let op := XAddFun out (opsem o c) in
+  let t' := xstep t op in
+  Inv t' /\ Table.size t' = Table.size t /\
+  abs t' = xspec_step (Table.size t) (abs t) op /\
+  (is_coord out = false -> xs t' = xs t /\ ys t' = ys t /\ zs t' = zs t /\ ts t' = ts t).
+Proof. exact (operator_step o t out c). Qed.
+
 Print Assumptions C01_history_invariant.
+Print Assumptions C01_operator_step.
 Print Assumptions C01_history_refines.
 Print Assumptions C01_history_frame.
 Print Assumptions C01_remove.
@@ -56,3 +70,11 @@ Example C01_nonvacuous :
   forallb (xvalid (Table.size mk2)) h_ex = true /\
   abs (fold_left xstep h_ex mk2) = [(s_ "b", [Some 5; Some 5]); (s_ "a", [Some 7; Some 9])].
 Proof. split; vm_compute; reflexivity. Qed.
+
+(* the operator semantics on a concrete column: shift right by one, shift by -1 (left), circular shift, rectifier *)
+Example C01_opsem_runs :
+  opsem (OShift 1) [Some 1; Some 2; Some 3] = [None; Some 1; Some 2] /\
+  opsem (OShift (-1)) [Some 1; Some 2; Some 3] = [Some 2; Some 3; None] /\
+  opsem (OShiftCirc 1) [Some 1; Some 2; Some 3] = [Some 3; Some 1; Some 2] /\
+  opsem ORectify [Some (-2); None] = [Some 2; None].
+Proof. repeat split; vm_compute; reflexivity. Qed.
